@@ -31,9 +31,11 @@ func maskKey(ip netip.Addr, bits int) string {
 }
 
 // netHas reports whether ip lies in p: same family (a 4in6-mapped address is
-// an IPv6 address) and the same leading bits.
+// an IPv6 address) and the same leading bits.  A zone on the client address is
+// irrelevant (networks have none); a network whose length does not fit its
+// family contains nothing.
 func netHas(p netip.Prefix, ip netip.Addr) bool {
-	if p.Addr().Is4() != ip.Is4() || ip.Zone() != "" {
+	if !p.IsValid() || p.Addr().Is4() != ip.Is4() {
 		return false
 	}
 
